@@ -7,7 +7,7 @@ import traceback
 
 from . import astdb, report
 
-LEVELS = {"C05": "proof", "C07": "proof", "C11": "proof", "C19": "proof"}
+LEVELS = {"C05": "proof", "C07": "proof", "C11": "proof", "C17": "proof", "C19": "proof"}
 
 
 def selftest(pid):
